@@ -655,6 +655,36 @@ pub fn open_fixed_buffer_accepts(op: Opener, m: &Material, msg_len: usize) -> Op
     }
 }
 
+/// As `open_fixed_buffer_accepts`, but reports (buffer before, buffer after, returned Ok?) so that C17 can inspect what
+/// a failed open left in a caller buffer that is LONGER than the presented ciphertext needs. A panic yields None.
+pub fn open_fixed_buffer_observe(op: Opener, m: &Material, msg_len: usize) -> Option<(Vec<u8>, Vec<u8>, bool)> {
+    use Opener::*;
+    if op.kind() != m.kind || m.short_wire.is_some() {
+        return None;
+    }
+    let wire = m.wire();
+    let nonce: [u8; 24] = a(&m.nonce);
+    let key: [u8; 32] = a(&m.key);
+    let pk: [u8; 32] = a(&m.pk);
+    let sk: [u8; 32] = a(&m.sk);
+    let tag: [u8; 16] = a(&m.tag);
+    let before = sentinel_buf(msg_len);
+    let mut buf = before.clone();
+    let r = no_panic(|| match op {
+        SbOpenEasy | PcSbOpenEasy => Some(crypto_secretbox_open_easy(&mut buf, &wire, &nonce, &key).is_ok()),
+        SbOpenDetached => Some(crypto_secretbox_open_detached(&mut buf, &tag, &m.ct, &nonce, &key).is_ok()),
+        PcOpenDetachedAfternm => Some(crypto_box_open_detached_afternm(&mut buf, &tag, &m.ct, &nonce, &key).is_ok()),
+        BoxOpenEasy => Some(crypto_box_open_easy(&mut buf, &wire, &nonce, &pk, &sk).is_ok()),
+        BoxOpenDetached => Some(crypto_box_open_detached(&mut buf, &tag, &m.ct, &nonce, &pk, &sk).is_ok()),
+        SealOpen => Some(crypto_box_seal_open(&mut buf, &wire, &pk, &sk).is_ok()),
+        _ => None,
+    });
+    match r {
+        Ok(Some(ok)) => Some((before, buf, ok)),
+        _ => None,
+    }
+}
+
 /// `open` with panics converted into Err("panic: ..").
 pub fn open_caught(op: Opener, m: &Material) -> Option<Result<Opened, String>> {
     match no_panic(|| open(op, m)) {
